@@ -41,7 +41,7 @@ TCniDel  == IsEv("cni_del") /\ CniDel(Log[l].p, Log[l].u)
 TFlush   == IsEv("flush") /\ Flush(Log[l].ok)
 TExist   == IsEv("pod_exist") /\ PodExist(Log[l].p, Log[l].res)
 TGcDone  == IsEv("daemon_gc") /\ GcDone
-TRt      == IsEv("rt") /\ RtWrite(Log[l].by, RtOf(Log[l].pods), PnOf(Log[l].pods))
+TRt      == IsEv("rt") /\ RtWrite(Log[l].by, RtOf(Log[l].pods), PnOf(Log[l].pods), Rng(Log[l].local))
 TRecB    == IsEv("reconcile_begin") /\ ReconcileBegin
 TCrW     == IsEv("cr_write") /\ CrWrite(Log[l].ok)
 TEarly   == IsEv("describe_fail") /\ EarlyReturn
